@@ -1,11 +1,13 @@
 (* DC19.v — dispatch entry of property C19.
 
-   "ParallelMix" [pool seed; batch seed; k; g; focus]: the Go side builds a pool of shared argument slices and objects from the pool seed, draws k call
-   instances (exported function + argument seed; focus 1 = only wrapping shifts and neighbourhoods at the grid edges) from the batch seed, runs each instance alone, then lets every one of g goroutines run the
-   whole batch in its own random order on the shared pool, and reports
+   "ParallelMix" [pool seed; batch seed; k; g; focus; (repeats)]: the Go side builds a pool of shared argument slices and objects from the pool seed
+   (three regions at three zooms, grid-edge IDs, empty and malformed inputs), draws k call instances (exported function + argument seed; focus 1 =
+   only wrapping shifts and neighbourhoods at the grid edges) from the batch seed, runs each instance alone (the reference), then lets every one of
+   g goroutines run the whole batch in its own random order on the shared pool, then runs each instance alone again, and reports
        [ [equal_1; ...; equal_k] ; inputs_unmodified ; [names of the offending calls] ]
-   where equal_i says that every concurrent execution of instance i returned the result of its solo run, and inputs_unmodified is a byte comparison
-   of the rendered pool before and after.
+   where equal_i says that every concurrent execution of instance i and the second solo run returned the reference result (rendered values and
+   error texts; as a multiset of the result list for the set-valued functions whose order follows map iteration), and inputs_unmodified is a
+   byte comparison of the rendered pool before and after each phase. There is no executable model of any Go function here.
 
    The model's answer is what the non-interference theorem (Conc.v) predicts for a library whose steps do not write shared memory: every flag true,
    inputs unmodified, no offending call — `predict k`. `predict_is_equal_flags` ties the prediction to the theorem: for every machine that satisfies
